@@ -70,6 +70,11 @@
 #include <xalanc/XSLT/XalanSourceTreeDocumentAllocator.hpp>
 #include <xalanc/XSLT/XalanSourceTreeDocumentFragmentAllocator.hpp>
 
+#if defined(APACHE_XALAN_C_VERIF)
+#include <utility>
+#include <vector>
+#endif
+
 
 
 namespace XALAN_CPP_NAMESPACE {
@@ -993,6 +998,16 @@ public:
      */
     XalanSourceTreeDocument*
     getSourceTreeFactory(MemoryManager& theManager) const;
+
+#if defined(APACHE_XALAN_C_VERIF)
+    /**
+     * Verification hook: report the size (or null-ness) of every internal
+     * stack, cache, map and list of this execution context and of the
+     * objects it owns.  Add-only; changes no behaviour.
+     */
+    void
+    verifReportSizes(std::vector<std::pair<const char*, unsigned long> >&   out) const;
+#endif
 
 #if defined(XALAN_RECURSIVE_STYLESHEET_EXECUTION)
 protected:
